@@ -441,6 +441,16 @@ func runC09Concurrent(cfg *config, res *monitor.Result) {
 	var evals int64
 	var mu sync.Mutex
 	ci := 0
+	// a second message of another Go type is marshaled by the same goroutines (half of the iterations): shared state
+	// keyed by Go type (type classification, extension lookups) then sees two types interleaved. prevSame is the
+	// previous subject, prevOther the latest subject of another runtime flavour.
+	type subject struct {
+		t            target
+		shared       any
+		want, wantRT []byte
+		model        *dynamicpb.Message
+	}
+	var prevSame, prevOther *subject
 	for _, t := range cfg.targets(true) {
 		g := cfg.gen(t)
 		g.NoExt = true
@@ -467,6 +477,11 @@ func runC09Concurrent(cfg *config, res *monitor.Result) {
 		}); pi != nil || werr != nil || len(wantRT) != len(want) {
 			continue
 		}
+		self := &subject{t: t, shared: shared, want: want, wantRT: wantRT, model: model}
+		companion := prevSame
+		if prevOther != nil && ci%2 == 0 {
+			companion = prevOther
+		}
 		c := confs[ci%len(confs)]
 		ci++
 		runtime.GOMAXPROCS(c.procs)
@@ -486,6 +501,11 @@ func runC09Concurrent(cfg *config, res *monitor.Result) {
 					var got []byte
 					var gerr error
 					what := ""
+					cur := self
+					if companion != nil && (gi+it/5)%2 == 1 {
+						cur = companion
+					}
+					t, shared, want, wantRT, model := cur.t, cur.shared, cur.want, cur.wantRT, cur.model
 					pi := monitor.Try(func() {
 						switch (gi + it) % 5 {
 						case 0:
@@ -531,7 +551,15 @@ func runC09Concurrent(cfg *config, res *monitor.Result) {
 		close(start)
 		wg.Wait()
 		evals += int64(per * c.g)
-		classes[fmt.Sprintf("concurrent/G%d/procs%d/%s", c.g, c.procs, t.pkg.Flavour)]++
+		comp := "alone"
+		if companion != nil {
+			comp = "with-" + companion.t.pkg.Flavour
+		}
+		classes[fmt.Sprintf("concurrent/G%d/procs%d/%s/%s", c.g, c.procs, t.pkg.Flavour, comp)]++
+		if prevSame != nil && prevSame.t.pkg.Flavour != t.pkg.Flavour {
+			prevOther = prevSame
+		}
+		prevSame = self
 	}
 	runtime.GOMAXPROCS(runtime.NumCPU())
 	res.Eval(evals)
